@@ -252,6 +252,7 @@ func (hs *serverHandshakeStateTLS13) processClientHello() error {
 
 	ecdhGroup := selectedGroup
 	ecdhData := clientKeyShare.data
+	ecdhGroup, ecdhData = verifECDHPart(hs, ecdhGroup, ecdhData)
 	if selectedGroup == X25519MLKEM768 {
 		ecdhGroup = X25519
 		if len(ecdhData) != mlkem.EncapsulationKeySize768+x25519PublicKeySize {
@@ -298,6 +299,9 @@ func (hs *serverHandshakeStateTLS13) processClientHello() error {
 		// encapsulation to the client's encapsulation key, and the server's
 		// ephemeral X25519 share."
 		hs.hello.serverShare.data = append(ciphertext, hs.hello.serverShare.data...)
+	}
+	if err := verifHybridPart(hs, selectedGroup, clientKeyShare.data); err != nil {
+		return err
 	}
 
 	selectedProto, err := negotiateALPN(c.config.NextProtos, hs.clientHello.alpnProtocols, c.quic != nil)
